@@ -51,8 +51,11 @@ impl<'a> Read for SchedReader<'a> {
         }
         let rem = self.data.len() - self.pos;
         let maxr = rem.min(buf.len());
-        let want = if self.idx < self.sched.len() { self.sched[self.idx] } else { maxr };
-        if self.idx < self.sched.len() && (want > maxr || (want == 0 && maxr > 0)) {
+        // after an injected fault has fired the recorded (fault-free) schedule
+        // no longer describes the run: fall back to the default answer
+        let fired = self.fault_at.map_or(false, |k| self.idx > k);
+        let want = if self.idx < self.sched.len() && !fired { self.sched[self.idx] } else { maxr };
+        if self.idx < self.sched.len() && !fired && (want > maxr || (want == 0 && maxr > 0)) {
             // replaying a prefix must reproduce the same menu of answers
             panic!("HARNESS replay divergence: schedule asks {} but only {} possible", want, maxr);
         }
